@@ -8,7 +8,7 @@ import c12_ref as R
 from c12_ops import *
 
 PROP = 'C12'
-LEAN_MODULES = ['PMV.Props.C12']
+LEAN_MODULES = ['PMV.Props.C12', 'PMV.Props.C12Print']
 PARALLEL = True
 MANIFEST = {
     'text': 'Kernel-checked theorems (PMV/Props/C12.lean) about an exact, code-shaped Lean model of polymath/units.py '
@@ -175,6 +175,28 @@ def gen_cases(rng, tier):
         add(op='mk', e=[rng.randint(-3, 3) for _ in range(3)], n=rng.choice([1, 2, 6, 60, 180, 256, 1000, 3600, 10**12]),
             d=rng.choice([1, 2, 4, 12, 180, 512, 1000, 86400, 10**15]), p=rng.randint(-3, 3))
 
+    # ---- printing: str(u) of every named constant, of all pairwise products/quotients (with the name the
+    #      algebra gives them, without a name, through the static helpers), of powers, and with one registered unit
+    #      deliberately stripped of its name (the damage of defect 13: the model must fail exactly where the code does)
+    for a in allnames:
+        add(op='str', a=a)
+        add(op='str', a=a, how='noname')
+        for k in range(-4, 5):
+            add(op='str', a=['**', a, k]); add(op='str', a=a, how='power', k=k)
+        for (n, d) in ((5, 2), (7, 1), (1, 8)):
+            add(op='str', a=['num*', a, n, d])
+    for a in (allnames if thorough else distinct):
+        for b in (allnames if thorough else distinct):
+            add(op='str', a=['*', a, b]); add(op='str', a=['/', a, b])
+            add(op='str', a=['*', a, b], how='noname'); add(op='str', a=['/', a, b], how='noname')
+            add(op='str', a=a, b=b, how='helper')
+    for dmg in ('KM', 'S', 'RAD', 'DEG', 'M'):
+        for a in ['KM', 'M', 'S', 'DEG', 'RAD', 'STER', ['*', 'KM', 'S'], ['/', 'M', 'S'], ['*', 'DEG', 'MIN'], ['**', 'KM', 2]]:
+            add(op='str', a=a, damage=dmg); add(op='str', a=a, how='noname', damage=dmg)
+    # ---- zero coefficients: rejected cleanly
+    for a in distinct:
+        for fn in ('mul0', 'mulf0', 'div0', 'rdiv0', 'ctor0', 'ctor0d'):
+            add(op='zero', fn=fn, a=a)
     # ---- negative coefficients (outside the exact model, which keeps numerators in N: judged by the oracle only;
     #      zero coefficients raise ZeroDivisionError in the constructor and are not specified by the property)
     negs = [(-2, 1), (-5, 2), (-1, 8), (-3, 1)]
@@ -206,6 +228,8 @@ def gen_cases(rng, tier):
     for _ in range(ngen):
         a, b, c = gen_unit(rng), gen_unit(rng), gen_unit(rng)
         add(op='mul', a=a, b=b); add(op='div', a=a, b=b)
+        add(op='str', a=a); add(op='str', a=a, how='noname'); add(op='str', a=['*', a, b], how='noname')
+        add(op='str', a=a, b=rng.choice([b, None]), how='helper'); add(op='str', a=a, how='power', k=rng.randint(-3, 3))
         add(op='names', fn='mul', a=a, b=b); add(op='names', fn='div', a=a, b=b)
         add(op='names', fn='pow', a=a, k=rng.randint(-3, 3))
         add(op='names', fn='sqrt', a=['*', a, a]); add(op='names', fn='sqrt', a=['*', ['*', a, b], ['*', b, a]])
@@ -234,7 +258,8 @@ def gen_cases(rng, tier):
     def units_pool(n):
         pool = [None, 'UNITLESS', 'KM', 'M', 'S', 'MIN', 'RAD', 'DEG', 'STER', 'ARCSEC', 'MICRON', 'CYCLES',
                 ['*', 'M', 'M'], ['/', 'KM', 'S'], ['*', 'DEG', 'DEG'], ['**', 'MICRON', 3], ['*', 'M', 'KM'],
-                ['*', ['**', 'MICRON', 3], ['**', 'MICRON', 3]], ['/', 'M', 'M'], ['*', 'DEG', 'RAD']]
+                ['*', ['**', 'MICRON', 3], ['**', 'MICRON', 3]], ['/', 'M', 'M'], ['*', 'DEG', 'RAD'],
+                ['/', 'M', 'KM'], ['/', 'DEG', 'RAD'], ['/', 'MIN', 'S']]
         return pool + [gen_unit(rng) for _ in range(n)]
     pool = units_pool(30 if thorough else 6)
     small = [None, 'UNITLESS', 'KM', 'M', 'S', 'DEG', ['*', 'M', 'M'], ['/', 'KM', 'S'], 'STER'] + \
@@ -284,6 +309,30 @@ def gen_cases(rng, tier):
             target=rng.choice(['obj', 'wod']), nderivs=nder, dunits=bool(eff is not None and (both or spec['arity'] == 1)),
             a=eff, b=b, bderiv=bool(both and spec['arity'] == 2 and nder and rng.random() < 0.6),
             p=rng.choice(spec['powers']) if 'powers' in spec else None)
+    # ---- units of the derivatives of results: operands with derivatives d/dT whose units are operand/T (and some
+    #      that are not), through every operation that builds derivatives
+    ndr = 12000 if thorough else 3500
+    dnames = list(DOPS)
+    for i in range(ndr):
+        oname = dnames[i % len(dnames)]
+        spec = OBJ_OPS[oname]
+        cls = rng.choice(spec['classes'])
+        shape = rng.choice([[], [2]])
+        t = rng.choice(['S', 'S', 'MIN', 'DEG', 'KM', gen_unit(rng)])
+        a = rng.choice(['KM', 'M', 'S', 'DEG', ['*', 'M', 'M'], ['/', 'KM', 'S'], 'STER', 'UNITLESS', ['**', 'MICRON', 4],
+                        gen_unit(rng), None])
+        b = rng.choice(['S', 'M', 'KM', 'DEG', ['/', 'KM', 'S'], gen_unit(rng), None]) if spec['arity'] == 2 else None
+        def dchoice(u):
+            x = rng.random()
+            if x < 0.25:
+                return '-'
+            if x < 0.85 and u is not None:
+                return ['/', u, t]
+            return rng.choice([None, 'KM', ['/', 'KM', 'S'], 'UNITLESS'])
+        da = dchoice(a)
+        db = dchoice(b) if spec['arity'] == 2 else '-'
+        add(op='drule', oname=oname, cls=cls, shape=shape, a=a, b=b, da=da, db=db, t=t,
+            p=rng.choice([-6, -4, -3, -2, -1, 0, 1, 2, 3, 4, 5, 6, 8, 10, 'other']) if 'powers' in spec else None)
     # classes that disallow units
     for cls in NO_UNITS:
         for u in [None, 'UNITLESS', 'KM', 'DEG', ['/', 'KM', 'S']]:
